@@ -310,10 +310,102 @@ func (c *Ctx) checkErrorsPropagate(rule string, fns []*ssa.Function) {
 					}
 				case *ssa.Store:
 					direct = true // spilled to the result cell
+					// ... where it is pending until the function returns: on the failure side of the test that follows, no
+					// path may overwrite the cell with a value that can be nil (the error of a later call that succeeds)
+					// before a return - `break` out of a switch inside a loop, a missing `return`
+					cell, isCell := x.Addr.(*ssa.Alloc)
+					if !isCell || ei < 0 {
+						continue
+					}
+					for _, b := range f.Blocks {
+						iff, isIf := b.Instrs[len(b.Instrs)-1].(*ssa.If)
+						if !isIf {
+							continue
+						}
+						cond, neg := an.Not(iff.Cond)
+						cx, trueMeansNil, isNC := an.NilCheck(cond)
+						if !isNC {
+							continue
+						}
+						ld, isLd := cx.(*ssa.UnOp)
+						if !isLd || ld.Op != token.MUL || ld.X != ssa.Value(cell) {
+							continue
+						}
+						otherStore := func(in ssa.Instruction) bool {
+							st, isSt := in.(*ssa.Store)
+							return isSt && st.Addr == ssa.Value(cell)
+						}
+						// the test reads what this call stored
+						if !an.InstrDominates(x, iff) || an.Search(an.After(x), isInstr(ld), otherStore) == nil {
+							continue
+						}
+						tested = true
+						nilSucc := 0
+						if !trueMeansNil {
+							nilSucc = 1
+						}
+						if neg {
+							nilSucc = 1 - nilSucc
+						}
+						errSucc := b.Succs[1-nilSucc]
+						mayBeNil := func(in ssa.Instruction) bool {
+							st, isSt := in.(*ssa.Store)
+							if !isSt || st.Addr != ssa.Value(cell) {
+								return false
+							}
+							v := an.Strip(st.Val)
+							if an.IsNilConst(v) {
+								return true
+							}
+							if mi, isMI := v.(*ssa.MakeInterface); isMI {
+								v = an.Strip(mi.X)
+							}
+							if vc, isCall := v.(*ssa.Call); isCall {
+								if g2 := vc.Common().StaticCallee(); g2 != nil {
+									switch an.FuncKey(g2) {
+									case "fmt.Errorf", "errors.New", "errors.Join":
+										return false
+									}
+								}
+							}
+							if _, isAlloc := v.(*ssa.Alloc); isAlloc {
+								return false // &someError{...}
+							}
+							return true
+						}
+						if w := an.Search(an.Point{B: errSucc, I: 0}, mayBeNil, nil); w != nil {
+							okAll = false
+							R.Fail(rule, key, c.pos(iff), "after this call fails the pending error can be overwritten before the function returns (by the result of a later call that succeeds): the failure is then reported as success: "+c.trail(w))
+						}
+					}
 				case *ssa.ChangeInterface, *ssa.MakeInterface:
 					// wrapped into fmt.Errorf args
 				case *ssa.Phi:
 					direct = true
+				}
+			}
+			// the test may be made by a classifier of the module applied to the error (`switch classifyReadErr(err)`)
+			if ei >= 0 {
+				for _, e := range errNilIfs(f, errVal) {
+					if cnd, _ := an.Not(e.If.Cond); func() bool { _, _, isNC := an.NilCheck(cnd); return isNC }() {
+						continue // the direct form was handled above
+					}
+					tested = true
+					bad := func(in ssa.Instruction) bool {
+						ret, ok := in.(*ssa.Return)
+						if !ok {
+							return false
+						}
+						res := an.ReturnResults(ret)
+						return an.IsNilConst(an.Strip(res[ei]))
+					}
+					if w := an.Search(an.Point{B: e.ErrSucc, I: 0}, bad, nil); w != nil {
+						if c.isEOFClassification(w[len(w)-1]) {
+							continue
+						}
+						okAll = false
+						R.Fail(rule, key, c.pos(e.If), "after this call fails a path still returns success: "+c.trail(w))
+					}
 				}
 			}
 			if okAll && (tested || direct) {
@@ -350,6 +442,31 @@ func (c *Ctx) isEOFClassification(in ssa.Instruction) bool {
 					continue
 				}
 				inner, neg := an.Not(res)
+				if phi, isPhi := res.(*ssa.Phi); isPhi && !neg {
+					// `a(err) || b(err) || c(err)`: true from the true branch of an atom, or the last atom itself
+					for i, ed := range phi.Edges {
+						if b, isC := an.BoolConst(ed); isC {
+							okEdge := false
+							if b && i < len(phi.Block().Preds) {
+								p := phi.Block().Preds[i]
+								if iff, isIf := p.Instrs[len(p.Instrs)-1].(*ssa.If); isIf && p.Succs[0] == phi.Block() && p.Succs[1] != phi.Block() {
+									if ic, _ := an.Not(iff.Cond); eofAtom(ic) {
+										okEdge = true
+									}
+								}
+							}
+							if !okEdge {
+								all = false
+							}
+							continue
+						}
+						if ei, eneg := an.Not(ed); eneg || !eofAtom(ei) {
+							all = false
+						}
+					}
+					n++
+					continue
+				}
 				if neg || !eofAtom(inner) {
 					all = false
 				}
